@@ -419,6 +419,26 @@ fn run_kernel(f: &[&str]) -> String {
                 Err(_) => format!("panic:{}", last_panic()),
             }
         }
+        // k loopattr LEN SIZED → ok:<index0:index:length:revindex:revindex0:first:last:depth:depth0;…>
+        "loopattr" => finish(guarded(|| {
+            let l: i64 = f[1].parse().unwrap();
+            let it = if f[2] == "1" { Value::from((0..l).collect::<Vec<_>>()) } else { Value::make_iterable(move || (0..l).filter(|_| true)) };
+            let src = "{% for x in it %}{{ loop.index0 }}:{{ loop.index }}:{{ loop.length }}:{{ loop.revindex }}:{{ loop.revindex0 }}:{{ loop.first }}:{{ loop.last }}:{{ loop.depth }}:{{ loop.depth0 }};{% endfor %}";
+            let out = env.render_str(src, context! { it => it })?;
+            Ok(format!("ok:{}", out))
+        })),
+        // k zpad STYLE D W → ok:<len>   zero padding of a grouped D-digit number to width W
+        // (c `{:0W,d}`, u `{:0W_d}`, x `{:0W_x}` of 10^(D-1) resp. 16^(D-1))
+        "zpad" => finish(guarded(|| {
+            let d: u32 = f[2].parse().unwrap();
+            let (spec, v) = match f[1] {
+                "c" => (format!("{{:0{},d}}", f[3]), 10i128.pow(d - 1)),
+                "u" => (format!("{{:0{}_d}}", f[3]), 10i128.pow(d - 1)),
+                _ => (format!("{{:0{}_x}}", f[3]), 16i128.pow(d - 1)),
+            };
+            let out = minijinja::formatting::format(minijinja::formatting::FormatStyle::StrFormat, &spec, &[Value::from(v)])?;
+            Ok(format!("ok:{}", out.len()))
+        })),
         // k nest <derivation> → ok | err-chain | err-rec: the verdict of the real parser on the source a
         // parse derivation (`MJ/Model/Nesting.lean: P`) unparses to
         "nest" => {
@@ -1422,6 +1442,20 @@ fn gen_kernel_cases(out: &mut Vec<String>, thorough: bool) {
             for fill in ["0", "1"] {
                 out.push(format!("k batch {} {} {}", len, n, fill));
                 out.push(format!("k slicef {} {} {}", len, n, fill));
+            }
+        }
+    }
+    for l in 0..=5 {
+        out.push(format!("k loopattr {} 1", l));
+        out.push(format!("k loopattr {} 0", l));
+    }
+    for st in ["c", "u", "x"] {
+        for d in [1u32, 2, 3, 4, 5, 6, 7, 8, 9, 12, 13, 20, 30] {
+            for w in 0..=24 {
+                out.push(format!("k zpad {} {} {}", st, d, w));
+            }
+            for w in [40, 41, 42, 43, 100, 1000] {
+                out.push(format!("k zpad {} {} {}", st, d, w));
             }
         }
     }
